@@ -247,6 +247,7 @@ def _check(oc, prop, tier, seed, replay, workdir):
         cfg = PLAN[tier]
         chunk = cfg["chunk"]
         model_future = pool.submit(run_models, oc, cfg["model_cfg"], cfg["variants"], workdir)
+        V.version_include()     # generate version.hpp once, before the parallel compiles (build_many races on it)
         exes = V.build_many(jobs(cfg["gs"]))
         runs = []
         for g, exe in zip(cfg["gs"], exes):
